@@ -13,11 +13,18 @@ func targetFor(data []byte, mode string) uint64 {
 	case "never": // l*x about 3^39
 		return 4052555153018976267 / ln
 	}
+	if mode == "slow" {
+		return 19683 / ln
+	}
 	return 243 / ln * 3 // "either"
 }
 
 func mineCall(ctx context.Context, data []byte, mode string, nw int) (uint64, error) {
 	return New(nw).Mine(ctx, data, targetFor(data, mode))
+}
+
+func mineOn(w *Worker, ctx context.Context, data []byte, mode string) (uint64, error) {
+	return w.Mine(ctx, data, targetFor(data, mode))
 }
 
 func nonceOK(data []byte, nonce uint64, mode string) bool {
